@@ -135,6 +135,22 @@ CHECKS = {
         "incl. box coordinates, taste(coords), min/max, and an audit that nothing is written into the checkpoint.",
    note="Checkpoint layout modelled on test_assets/example_chk_3d; the real CheckpointReader accepts the synthetic ones (checked in every run).",
    tech="bounded-exhaustive exploration + schedule exploration of the implementation against a reference model"),
+ "C11": dict(cat="model_checking", design="4/C11",
+   text="Chef(...).cook() is executed (a) for one- and three-component user recipes without solution array on 3D plotfiles x every "
+        "layout of one deviating level x kept-field strings (None, one, two, reversed, with an unknown name) x serial / parallel under "
+        "every order of the per-file tasks, and (b) on the drm19 template (24 fields, three box shapes, cells with T = 0 and sum(Y) = 0, "
+        "three layouts, 1 and 5 atm) for HRR, ENT, SRi, SDi, RRi and a solution-array user recipe x kept fields x serial / parallel. "
+        "The output is parsed independently: validity (reference + taste), every component under its own name (kept = input bits, new = "
+        "recipe(reference box), resp. a per-cell Cantera Solution at the cell's T, P, Y within rtol 1e-12), min/max = extrema of the written data.",
+   note="Cells whose state the tool declares undefined carry no demand on the new components; in-process controlled pool with a dill boundary (pathos worker lifetime is C12's subject).",
+   tech=T),
+ "C14": dict(cat="model_checking", design="4/C14",
+   text="Explicit-state breadth-first search over tool histories (depth 3 quick, 4 thorough) from four roots (2D, two 3D, a chk2plt conversion): "
+        "events colander(4 selections x 2 limits), chef(2 recipes x kept None/first), combine in both orders with a sibling and with every ancestor "
+        "of the history; states deduplicated on a canonical key (content bits + on-disk layout); every state must pass reference validation and "
+        "taste (default + coordinates) and equal the same pure operations applied to the in-memory RefPlot; combines that must be refused must raise and write nothing.",
+   note="Controlled in-process pool, identity schedule; events that would repeat a field name are disabled.",
+   tech="explicit-state BFS over operation histories with canonical state hashing, real tools as transition function"),
 }
 
 NOT_YET = {}
